@@ -50,10 +50,20 @@ Fixpoint has_prefix (pre s : bytes) : bool :=
 Inductive fkind :=
 | KScalar (ptype : N) (j5kind : bytes)
 | KObject (name : bytes)                  (* object:<Name>, a reference to a schema of this package *)
+| KOneof (name : bytes)                   (* oneof:<Name> *)
+| KEnum (name : bytes)                    (* enum:<Name> *)
 | KKey (primary : bool) (foreign : option (bytes * bytes)) (tenant : option bytes).
   (* schema.key {entity{primaryKey | foreignKey{package,entity}, tenantKey}} *)
 
 Record ufield := mkU { uf_name : bytes; uf_kind : fkind; uf_required : bool; uf_optional : bool }.
+(* a schema declared inside the entity block (entity.Schemas: object / oneof / enum) *)
+Inductive eschema :=
+| SObject (name : bytes) (fields : list ufield)
+| SOneof (name : bytes) (options : list ufield)
+| SEnum (name : bytes) (options : list bytes).
+Definition schema_fields (s : eschema) : list ufield :=
+  match s with SObject _ fs => fs | SOneof _ fs => fs | SEnum _ _ => [] end.
+
 Record ekey := mkK { k_def : ufield; k_shard : bool }.
 Record event := mkEv { ev_name : bytes; ev_fields : list ufield }.
 Record method := mkM {
@@ -75,7 +85,7 @@ Record entity := mkE {
   e_commands : list command;
   e_summaries : list summary;
   e_query : option query;
-  e_schemas : list (bytes * list ufield) }.   (* `object Name {...}` declared inside the entity block *)
+  e_schemas : list eschema }.
 
 (* ---- what is emitted ------------------------------------------------------- *)
 Inductive otype :=
@@ -142,6 +152,10 @@ Definition of_ufield (u : ufield) : ofield :=
       mkF10 (uf_name u) (TScalar pt k) false (uf_required u) false false None None None (uf_optional u)
   | KObject n =>
       mkF10 (uf_name u) (TObject [] n) false (uf_required u) false false None None None (uf_optional u)
+  | KOneof n =>
+      mkF10 (uf_name u) (TOneof [] n) false (uf_required u) false false None None None (uf_optional u)
+  | KEnum n =>
+      mkF10 (uf_name u) (TEnum [] n) false (uf_required u) false false None None None (uf_optional u)
   | KKey primary foreign tenant =>
       mkF10 (uf_name u) (TScalar 9 (bs "key")) false (uf_required u || primary) false primary tenant None
             foreign (uf_optional u)
@@ -341,6 +355,15 @@ Fixpoint nodup_bytes (l : list bytes) : bool :=
   | x :: r => negb (existsb (bytes_eqb x) r) && nodup_bytes r
   end.
 
+(* RangeNestedSchemas over entity.Schemas: objects and oneofs become messages, enums get the
+   default prefix SCREAMING_SNAKE(name)_ (visitEnumNode) *)
+Definition schema_component (s : eschema) : component :=
+  match s with
+  | SObject n fs => CMsg 0 (mkMsg n None false (map of_ufield fs) [])
+  | SOneof n fs => CMsg 0 (mkMsg n None true (map of_ufield fs) [])
+  | SEnum n opts => CEnum n (status_values (to_screaming_snake n ++ [95]) opts)
+  end.
+
 (* ---- entityNode.run: the fixed order ------------------------------------------------ *)
 Definition expand_with (e : entity) (filters : list bytes) : list component :=
   [CMsg 0 (keys_msg e); CMsg 0 (data_msg e); status_enum e;
@@ -349,7 +372,7 @@ Definition expand_with (e : entity) (filters : list bytes) : list component :=
   ++ flat_map (command_components e) (e_commands e)
   ++ publish_components e
   ++ flat_map (summary_components e) (e_summaries e)
-  ++ map (fun sc => CMsg 0 (mkMsg (fst sc) None false (map of_ufield (snd sc)) [])) (e_schemas e).
+  ++ map schema_component (e_schemas e).
 
 (* the walker errors of run: unknown default status filter, duplicate summary name *)
 Definition expand (e : entity) : outcome (list component) :=
@@ -432,7 +455,7 @@ Definition all_ufields (e : entity) : list ufield :=
   ++ flat_map (fun c => flat_map (fun m => md_request m ++ match md_response m with Some r => r | None => [] end)
                                  (c_methods c)) (e_commands e)
   ++ flat_map s_fields (e_summaries e)
-  ++ flat_map snd (e_schemas e).
+  ++ flat_map schema_fields (e_schemas e).
 Definition fields_ok (e : entity) : bool := forallb ufield_ok (all_ufields e).
 
 (* visitServiceMethodNode: every ":name" part of the resolved path must be a request property *)
